@@ -305,7 +305,14 @@ def main() -> None:
             {"property_id": pid, "reason": NOT_YET} for pid in sorted(TITLES) if pid not in CHECKS
         ],
         "notes": "All checks: `./check.py <id> --tier quick|thorough`, seed from VERIF_SEED. "
-        "Exit 0 held / 1 VIOLATION line / 2 harness error. Known findings: known_findings.json.",
+        "Exit 0 held / 1 VIOLATION line / 2 harness error (never a VIOLATION; a case that runs into the per-case "
+        "alarm is dropped as inconclusive and counted in the evidence). Shards run under string-hash seeds derived "
+        "from VERIF_SEED; a replay file records the seed it was found under and `--replay` re-executes under it. "
+        "Known findings: known_findings.json (36 entries, all `fixed`, by 32 `fix:` commits in /repo; each with a replay under "
+        "known/ and a revert mutant under mutants/reverts/). Sensitivity material (not registered checks): "
+        "mutants/ (97 hand-written and revert mutants, tools/sens.sh) and seeded/ (519 changes written by "
+        "sub-agents that saw only the property text, tools/seed_sweep.py); DESIGN.md section 10.4 says which "
+        "check reports which.",
     }
     with open(os.path.join(HERE, "MANIFEST.json"), "w") as f:
         json.dump(manifest, f, indent=1)
